@@ -107,6 +107,10 @@ func runBatch(path string) {
 		fmt.Fprintln(os.Stderr, "drv: bad batch request:", err)
 		os.Exit(3)
 	}
+	if req.Kind == "options" {
+		writeJSON(out, backendOptions())
+		os.Exit(0)
+	}
 	d := drivers[req.Kind]
 	if d == nil {
 		fmt.Fprintln(os.Stderr, "drv: unknown batch kind", req.Kind)
